@@ -241,6 +241,7 @@ func Open(ctx context.Context, path string, primary primary.PrimaryStorage, inde
 
 	fi, err := file.Stat()
 	if err != nil {
+		file.Close()
 		return nil, err
 	}
 
